@@ -109,28 +109,41 @@ func (v *cvKInt) Set(s string) error { return cvExt[v].Set(s) }
 func (v *cvKInt) String() string     { return "custom" }
 func (v *cvKInt) base() *cvBase      { return cvExt[v] }
 
+// cvWrap forwards IsBoolFlag() from what it wraps (the usual decorator pattern): the answer belongs to the value, not
+// to the Go type. Every case of these two kinds first builds and runs a throwaway application whose value is of the
+// same Go type and answers the other way.
+type cvWrap struct {
+	cvBase
+	flagLike bool
+}
+
+func (v *cvWrap) IsBoolFlag() bool { return v.flagLike }
+
 type cvKind struct {
 	name string
 	isBool bool
 	hasClear bool
 	mk func() cvAny
+	primeOpposite bool
 }
 
 var cvKinds = []cvKind{
-	{"IsBoolFlag=absent Clear=absent IsDefault=absent", false, false, func() cvAny { return &cvNnn{} }},
-	{"IsBoolFlag=absent Clear=absent IsDefault=present", false, false, func() cvAny { return &cvNnd{} }},
-	{"IsBoolFlag=absent Clear=present IsDefault=absent", false, true, func() cvAny { return &cvNcn{} }},
-	{"IsBoolFlag=absent Clear=present IsDefault=present", false, true, func() cvAny { return &cvNcd{} }},
-	{"IsBoolFlag=false Clear=absent IsDefault=absent", false, false, func() cvAny { return &cvFnn{} }},
-	{"IsBoolFlag=false Clear=absent IsDefault=present", false, false, func() cvAny { return &cvFnd{} }},
-	{"IsBoolFlag=false Clear=present IsDefault=absent", false, true, func() cvAny { return &cvFcn{} }},
-	{"IsBoolFlag=false Clear=present IsDefault=present", false, true, func() cvAny { return &cvFcd{} }},
-	{"IsBoolFlag=true Clear=absent IsDefault=absent", true, false, func() cvAny { return &cvTnn{} }},
-	{"IsBoolFlag=true Clear=absent IsDefault=present", true, false, func() cvAny { return &cvTnd{} }},
-	{"IsBoolFlag=true Clear=present IsDefault=absent", true, true, func() cvAny { return &cvTcn{} }},
-	{"IsBoolFlag=true Clear=present IsDefault=present", true, true, func() cvAny { return &cvTcd{} }},
-	{"named bool type, no optional method", false, false, func() cvAny { v := new(cvKBool); cvReg(v); return v }},
-	{"named []string type, no optional method", false, false, func() cvAny { v := new(cvKSlice); cvReg(v); return v }},
-	{"named string type, no optional method", false, false, func() cvAny { v := new(cvKString); cvReg(v); return v }},
-	{"named int type, no optional method", false, false, func() cvAny { v := new(cvKInt); cvReg(v); return v }},
+	{"IsBoolFlag=absent Clear=absent IsDefault=absent", false, false, func() cvAny { return &cvNnn{} }, false},
+	{"IsBoolFlag=absent Clear=absent IsDefault=present", false, false, func() cvAny { return &cvNnd{} }, false},
+	{"IsBoolFlag=absent Clear=present IsDefault=absent", false, true, func() cvAny { return &cvNcn{} }, false},
+	{"IsBoolFlag=absent Clear=present IsDefault=present", false, true, func() cvAny { return &cvNcd{} }, false},
+	{"IsBoolFlag=false Clear=absent IsDefault=absent", false, false, func() cvAny { return &cvFnn{} }, false},
+	{"IsBoolFlag=false Clear=absent IsDefault=present", false, false, func() cvAny { return &cvFnd{} }, false},
+	{"IsBoolFlag=false Clear=present IsDefault=absent", false, true, func() cvAny { return &cvFcn{} }, false},
+	{"IsBoolFlag=false Clear=present IsDefault=present", false, true, func() cvAny { return &cvFcd{} }, false},
+	{"IsBoolFlag=true Clear=absent IsDefault=absent", true, false, func() cvAny { return &cvTnn{} }, false},
+	{"IsBoolFlag=true Clear=absent IsDefault=present", true, false, func() cvAny { return &cvTnd{} }, false},
+	{"IsBoolFlag=true Clear=present IsDefault=absent", true, true, func() cvAny { return &cvTcn{} }, false},
+	{"IsBoolFlag=true Clear=present IsDefault=present", true, true, func() cvAny { return &cvTcd{} }, false},
+	{"named bool type, no optional method", false, false, func() cvAny { v := new(cvKBool); cvReg(v); return v }, false},
+	{"named []string type, no optional method", false, false, func() cvAny { v := new(cvKSlice); cvReg(v); return v }, false},
+	{"named string type, no optional method", false, false, func() cvAny { v := new(cvKString); cvReg(v); return v }, false},
+	{"named int type, no optional method", false, false, func() cvAny { v := new(cvKInt); cvReg(v); return v }, false},
+	{"decorator whose IsBoolFlag() answers true (after a value of the same Go type answering false was used)", true, false, func() cvAny { return &cvWrap{flagLike: true} }, true},
+	{"decorator whose IsBoolFlag() answers false (after a value of the same Go type answering true was used)", false, false, func() cvAny { return &cvWrap{flagLike: false} }, true},
 }
